@@ -63,7 +63,10 @@ const size_t  XalanXMLSerializerBase::CharFunctor1_1::s_lastSpecial = 0x9fu;
 const char  XalanXMLSerializerBase::CharFunctor1_1::s_specialChars[s_lastSpecial + 1] =
 {
  /* 00-07 */    eNone,  eCRFb,  eCRFb,  eCRFb,  eCRFb,  eCRFb,  eCRFb,  eCRFb,
- /* 08-0F */    eCRFb,  eCRFb,  eCRFb,  eCRFb,  eCRFb,  eCRFb,  eCRFb,  eCRFb,
+ // TAB (09) and LF (0A) are ordinary characters of XML 1.1, not restricted ones:
+ // they are treated as in XML 1.0.  CR (0D) stays "character reference only",
+ // because a literal CR does not survive the parser's line-end normalization.
+ /* 08-0F */    eCRFb,  eAttr,  eBoth,  eCRFb,  eCRFb,  eCRFb,  eCRFb,  eCRFb,
  /* 10-17 */    eCRFb,  eCRFb,  eCRFb,  eCRFb,  eCRFb,  eCRFb,  eCRFb,  eCRFb,
  /* 18-1F */    eCRFb,  eCRFb,  eCRFb,  eCRFb,  eCRFb,  eCRFb,  eCRFb,  eCRFb,
  /* 20-27 */    eNone,  eNone,  eAttr,  eNone,  eNone,  eNone,  eBoth,  eNone,
